@@ -18,6 +18,7 @@ struct GenOpts {
   bool long_strings = true;    // lengths around 16/32/64 and a few hundred bytes
   bool reals = true;
   bool big_containers = true;  // occasionally 15..33 / ~100 children
+  bool prefer_container_root = false;  // root is a container 90% of the time
   const std::vector<std::string>* key_pool = nullptr;  // if set, most keys come from here
 };
 
